@@ -174,7 +174,11 @@ fn read_back(s: &MdkSqliteStorage) -> bool {
     s.find_group_by_mls_group_id(&gid(0)).ok().flatten().is_some() && s.find_message_by_event_id(&gid(0), &event_id(1)).ok().flatten().map(|m| m.content == "content-3").unwrap_or(false)
 }
 
+static MATRIX_LOCK: std::sync::Mutex<()> = std::sync::Mutex::new(());
+
 pub fn run_matrix(cfg: &RunCfg, _replay: Option<&[Step]>) -> RunOutput {
+    // umask and the default keyring store are process-global: one matrix at a time
+    let _guard = MATRIX_LOCK.lock().unwrap_or_else(|e| e.into_inner());
     let mut out = empty_output(cfg);
     let base = fresh_dir();
     let store = keyring_core::mock::Store::new().expect("mock keyring");
@@ -193,6 +197,10 @@ pub fn run_matrix(cfg: &RunCfg, _replay: Option<&[Step]>) -> RunOutput {
                 let path = dir.join("db.sqlite");
                 let svc = format!("svc-{}-{case}", cfg.seed);
                 let kid = "dbkey";
+                // a clean keyring entry for this case, whatever ran before in this process
+                if let Ok(e) = keyring_core::Entry::new(&svc, kid) {
+                    let _ = e.delete_credential();
+                }
                 // ---- prepare the file state ----
                 let mut prepared_data = false;
                 match file_state {
@@ -235,7 +243,7 @@ pub fn run_matrix(cfg: &RunCfg, _replay: Option<&[Step]>) -> RunOutput {
                 let ok = opened.is_ok();
                 let data_ok = opened.as_ref().map(|s| read_back(s)).unwrap_or(false);
                 sig.push(format!("{file_state}/{ctor}/{}", if ok { "open" } else { "refused" }));
-                out.log.push(format!("umask {umask:o} {file_state} x {ctor} -> {} data_readable={data_ok} {}", if ok { "opened" } else { "refused" }, opened.as_ref().err().cloned().unwrap_or_default().chars().take(80).collect::<String>()));
+                out.log.push(format!("umask {umask:o} {file_state} x {ctor} -> {} data_readable={data_ok}", if ok { "opened" } else { "refused" }));
                 // ---- expectations ----
                 let right_key = matches!((file_state, ctor), ("encrypted_a", "with_key_a") | ("encrypted_a", "new_keyring_has") | ("keyring_encrypted", "new_keyring_has"));
                 let encrypted = matches!(file_state, "encrypted_a" | "keyring_encrypted");
